@@ -156,6 +156,15 @@ CLAIMS = {
             "re-emitted with their Signed<_> value untouched. Member-by-member equality of written files "
             "is not decided.",
             "DESIGN.md §4 C17"),
+    "C19": ("who-may-write query over cache.rs + MIR must-pass/value-origin rules + interprocedural "
+            "file-name template comparison between what the cache writes and what the loader requests",
+            "Decides that targets reach the cache only through save_target (digest prefix exactly under "
+            "consistent snapshots, for every requested or every listed target, errors propagated), that the "
+            "metadata file names written equal the names a client loading the copy will request, that the "
+            "root chain covers 1..=trusted version when requested and a missing version is an error, that "
+            "delegated roles are enumerated recursively. Byte identity of the re-fetched metadata and a "
+            "remote changing between load and cache are not decided.",
+            "DESIGN.md §4 C19"),
 }
 
 NOT_YET = {}
